@@ -142,3 +142,21 @@ validate_pull_enabled = Contract(
                                      ('only-when-disabled', 'self.disable_pull_operations')])},
 )
 CONTRACTS.append(validate_pull_enabled)
+
+
+# ---- further contracts of this property live in the sibling file C14_ops.py (same conventions)
+import importlib.util as _ilu_C14_ops
+import os as _os_C14_ops
+import sys as _sys_C14_ops
+_p_C14_ops = _os_C14_ops.path.join(_os_C14_ops.path.dirname(_os_C14_ops.path.abspath(__file__)), 'C14_ops.py')
+if _os_C14_ops.path.exists(_p_C14_ops):
+    _s_C14_ops = _ilu_C14_ops.spec_from_file_location('contracts_C14_ops', _p_C14_ops)
+    _m_C14_ops = _ilu_C14_ops.module_from_spec(_s_C14_ops)
+    _sys_C14_ops.modules['contracts_C14_ops'] = _m_C14_ops
+    _sys_C14_ops.modules.setdefault('contracts_C14', _sys_C14_ops.modules.get('contracts_C14') or _sys_C14_ops.modules[__name__])
+    _s_C14_ops.loader.exec_module(_m_C14_ops)
+    CONTRACTS.extend(_m_C14_ops.CONTRACTS)
+    CLASS_SPECS = dict(globals().get('CLASS_SPECS', {}))
+    for _k, _v in getattr(_m_C14_ops, 'CLASS_SPECS', {}).items():
+        CLASS_SPECS.setdefault(_k, {}).update(_v)
+    LEMMAS = list(globals().get('LEMMAS', [])) + list(getattr(_m_C14_ops, 'LEMMAS', []))
